@@ -22,6 +22,43 @@ fn main() {
             }
             c05::run(seed, &tier, shard, atom.as_deref())
         }
+        "C03" => {
+            if shard == 0 {
+                witness::run_witnesses("C03");
+            }
+            let p = hist::Profile::base("C03");
+            hist::run_profile(&p, seed, shard, if tier == "thorough" { 8000 } else { 600 });
+        }
+        "C07" => {
+            if shard == 0 {
+                witness::run_witnesses("C07");
+            }
+            let mut p = hist::Profile::base("C07");
+            p.unique_key = true;
+            p.rollback = atom.as_deref() == Some("rollback");
+            p.batch = atom.as_deref() == Some("batch");
+            p.multi_row_unique = atom.as_deref() == Some("multi");
+            hist::run_profile(&p, seed, shard, if tier == "thorough" { 8000 } else { 600 });
+        }
+        "C09" => {
+            if shard == 0 {
+                witness::run_witnesses("C09");
+            }
+            let mut p = hist::Profile::base("C09");
+            p.flush = true;
+            p.reopen = true;
+            p.configs = vec![dbx::default_cfg(), dbx::cfg(4096, 64, 2, 3, 2), dbx::cfg(4096, 1000, 16, 4, 3), dbx::cfg(8192, 200, 4, 3, 1)];
+            hist::run_profile(&p, seed, shard, if tier == "thorough" { 4000 } else { 300 });
+        }
+        "C13" => {
+            if shard == 0 {
+                witness::run_witnesses("C13");
+            }
+            let mut p = hist::Profile::base("C13");
+            p.vacuum = true;
+            p.reopen = atom.as_deref() == Some("reopen");
+            hist::run_profile(&p, seed, shard, if tier == "thorough" { 4000 } else { 300 });
+        }
         other => {
             eprintln!("unknown check {}", other);
             std::process::exit(2);
